@@ -1,5 +1,6 @@
 (* Props/C14.v — property C14: built-in reports state exactly the facts of the event stream (structure). *)
-From CV Require Import Model.Base Model.Events Model.Contract Model.Stats Model.Reporters Model.ReportersSpec Proofs.BaseP Proofs.ReportersP Proofs.ReportersP2 Proofs.ReportersP3.
+From CV Require Import Model.Base Model.Events Model.Contract Model.Stats Model.StatsSpec Model.Reporters Model.ReportersSpec Proofs.BaseP Proofs.ReportersP Proofs.ReportersP2 Proofs.ReportersP3.
+From CV Require Proofs.ReportersP4.
 From Coq Require Import Lia.
 
 (* terminal output: at most one line per event; exactly one for a step result, a failed hook, a parser error *)
@@ -141,4 +142,44 @@ Example C14_json_whole_document_nonvacuous :
   normalized ReportersP2.ex_stream = true /\ fids_nonzero ReportersP2.ex_stream = true /\
   fids_have_path ex_has_path ReportersP2.ex_stream = true /\
   length (json_facts 0 None (json_doc ex_has_path ReportersP2.ex_stream)) = 8%nat.
+Proof. vm_compute. repeat split; reflexivity. Qed.
+
+(* TERMINAL LISTING, THE WHOLE OF C14: for every stream accepted by the sequential contract (every prefix of a run
+   included) the lines, each attributed to the scenario header printed above it, state exactly the step results, failed
+   hooks and parser errors of the stream — in order *)
+Theorem C14_basic_whole_document :
+  forall es, normalized_prefix es = true ->
+    line_facts 0 0 (basic_lines es) = stream_line_facts es /\ c14_basic_ok es (basic_lines es) = true.
+Proof. intros es H. split; [exact (ReportersP4.C14_basic_lines_state_the_stream es H)|exact (ReportersP4.C14_basic_ok es H)]. Qed.
+Print Assumptions C14_basic_whole_document.
+
+(* JUNIT, THE WHOLE OF C14: for every complete stream accepted by the sequential contract: one testcase per finished
+   attempt, in order, classified by exactly that attempt's events; the Errors suites list the parser errors in order;
+   and — when no attempt is classified skipped (K14c otherwise: the listing of a skipped case is dropped) — the listings
+   inside the testcases state the step results and failed hooks of the stream, in order *)
+Theorem C14_junit_cases_are_the_attempts :
+  forall es, normalized es = true ->
+    junit_cases (junit_doc es) false = attempt_outcomes es /\
+    map (fun c => snd (fst c)) (junit_cases (junit_doc es) true)
+    = flat_map (fun e => match e with EvParseErr i => [i] | _ => [] end) (before_finished es).
+Proof. intros es H. split; [exact (ReportersP4.C14_junit_cases es H)|exact (ReportersP4.C14_junit_errors es H)]. Qed.
+Print Assumptions C14_junit_cases_are_the_attempts.
+
+Theorem C14_junit_whole_document :
+  forall es, normalized_prefix es = true ->
+    forallb (fun o => negb (snd o =? 2)) (attempt_outcomes es) = true ->
+    c14_junit_ok es (junit_doc es) = true.
+Proof. exact ReportersP4.C14_junit_ok. Qed.
+Print Assumptions C14_junit_whole_document.
+
+Theorem C14_junit_nothing_without_finished :
+  forall es, existsb is_finished es = false -> junit_doc es = [].
+Proof. exact ReportersP4.junit_doc_without_finished. Qed.
+
+Example C14_junit_whole_document_nonvacuous :
+  normalized ReportersP4.ex_stream = true /\
+  forallb (fun o => negb (snd o =? 2)) (attempt_outcomes ReportersP4.ex_stream) = true /\
+  Nat.leb 2 (length (attempt_outcomes ReportersP4.ex_stream)) = true /\
+  (* K14c: the hypothesis is needed *)
+  normalized ReportersP4.ex_skipped = true /\ c14_junit_ok ReportersP4.ex_skipped (junit_doc ReportersP4.ex_skipped) = false.
 Proof. vm_compute. repeat split; reflexivity. Qed.
